@@ -49,6 +49,7 @@ type Val struct {
 	DynT  types.Type     // known dynamic type of an interface value
 	OT    types.Type     // original named type of a converted constant (flag words)
 	OC    constant.Value // value before the conversion truncated it
+	Reint string         // a symbol reinterpreted by a non-value-preserving conversion ("int16"): ordering tests differ
 }
 
 type Closure struct {
@@ -330,6 +331,7 @@ type Interp struct {
 	FieldReads  map[*types.Var]bool
 	FieldStores map[*types.Var]bool
 	NoInline    func(f *types.Func) bool
+	symOrigin   map[int]types.Type // static type a wire symbol was read as
 	// SentinelErrors: package-level error variables built by errors.New and never reassigned are non-nil
 	SentinelErrors bool
 	pureGetter     map[*types.Func]int
@@ -1970,13 +1972,18 @@ func (in *Interp) compare(op token.Token, l, r Val, st *State) Tri {
 				}
 				return Tri{OnTrue: neT, OnFalse: eqT}
 			}
-			atom := fmt.Sprintf("s%d %s %s", id, op, r.String())
+			sname := fmt.Sprintf("s%d", id)
+			if l.Reint != "" {
+				// the ordering of a reinterpreted value is not the ordering of the value read
+				sname = fmt.Sprintf("%s(s%d)", l.Reint, id)
+			}
+			atom := fmt.Sprintf("%s %s %s", sname, op, r.String())
 			// normalise > / <= and < / >= pairs on the same constant
 			switch op {
 			case token.LEQ:
-				return Tri{Atom: fmt.Sprintf("s%d > %s", id, r.String()), Neg: true}
+				return Tri{Atom: fmt.Sprintf("%s > %s", sname, r.String()), Neg: true}
 			case token.GEQ:
-				return Tri{Atom: fmt.Sprintf("s%d < %s", id, r.String()), Neg: true}
+				return Tri{Atom: fmt.Sprintf("%s < %s", sname, r.String()), Neg: true}
 			}
 			return Tri{Atom: atom}
 		}
